@@ -1220,7 +1220,11 @@ class Module(ABC):
             trainables_and_inds = self._filter_trainables(is_viewed=False)
             self.base.indices_set_by_trainables = trainables_and_inds[0]
             self.base.trainable_params = trainables_and_inds[1]
-            self.base.num_trainable_params -= self.num_trainable_params
+            # Parameters which are shared with compartments outside of the view
+            # survive, so count what is left instead of subtracting the view's count.
+            self.base.num_trainable_params = int(
+                sum(len(inds) for inds in self.base.indices_set_by_trainables)
+            )
         else:
             self.base.indices_set_by_trainables = []
             self.base.trainable_params = []
@@ -2694,22 +2698,19 @@ class View(Module):
             trainable_params_in_view.append(
                 {k: v[completely_in_view] for k, v in params.items()}
             )
-            trainable_params_in_view.append(
-                {k: v[partially_in_view] for k, v in params.items()}
-            )
-
             índices_set_by_trainables_in_view.append(inds[completely_in_view])
-            partial_inds = inds[partially_in_view][in_view[partially_in_view]]
 
-            # the indexing i.e. `inds[partially_in_view]` reshapes `inds`. Since the shape
-            # determines how parameters are shared, `inds` has to be returned to its
-            # original shape.
-            if inds.shape[0] > 1 and partial_inds.shape != (0,):
-                partial_inds = partial_inds.reshape(-1, 1)
-            if inds.shape[1] > 1 and partial_inds.shape != (0,):
-                partial_inds = partial_inds.reshape(1, -1)
-
-            índices_set_by_trainables_in_view.append(partial_inds)
+            # A parameter which is shared between compartments inside and outside of
+            # the view keeps its value, but only the indices on the requested side.
+            # Different parameters can retain different numbers of indices, so every
+            # such parameter becomes its own entry (of shape `(1, num_retained)`).
+            for row in np.where(partially_in_view)[0]:
+                trainable_params_in_view.append(
+                    {k: v[row : row + 1] for k, v in params.items()}
+                )
+                índices_set_by_trainables_in_view.append(
+                    inds[row][in_view[row]].reshape(1, -1)
+                )
 
         indices_set_by_trainables = [
             inds for inds in índices_set_by_trainables_in_view if len(inds) > 0
